@@ -1,0 +1,49 @@
+//go:build verif
+
+// Contracts for the verifier in /verif (comment-only file; contributes no declarations).
+package routing
+
+// ---------------------------------------------------------------- C07: the fold over the actions of one request
+// keeping the message copy in step with an action touches only that copy (trusted; the bodies only write to the OnRequest)
+//@ iface ReqLunarAction.EnsureRequestIsUpdated
+//@   params r
+//@   modifies allof(lunar_messages.OnRequest.Path), allof(lunar_messages.OnRequest.Query), allof(lunar_messages.OnRequest.Body), mapof(r.Headers), now
+//@ iface RespLunarAction.EnsureResponseIsUpdated
+//@   params r
+//@   modifies allof(lunar_messages.OnResponse.Status), allof(lunar_messages.OnResponse.Body), mapof(r.Headers), now
+// the encoding of the chosen action (its contract is proved in package actions)
+//@ iface ReqLunarAction.ReqToSpoeActions
+//@   modifies now
+//@ iface RespLunarAction.RespToSpoeActions
+//@   modifies now
+
+//@ ghost func isER(a actions.ReqLunarAction) bool = typeis(a, *actions.EarlyResponseAction)
+//@ ghost func isNoOp(a actions.ReqLunarAction) bool = typeis(a, *actions.NoOpAction)
+
+//@ func getSPOEReqActions
+//@   prop C07
+//@   dispatch ReqLunarAction.ReqPrioritize => *NoOpAction, *EarlyResponseAction, *ModifyRequestAction, *ModifyHeadersAction, *GenerateRequestAction
+//@   requires forall(j, 0, len(lunarActions), reqOK(lunarActions[j]) && (reqHdrs(lunarActions[j]) == nil || reqHdrs(lunarActions[j]) != args.Headers))
+//@   allocates OnRequest, NoOpAction, map, ModifyHeadersAction, ModifyRequestAction, GenerateRequestAction
+//@   modifies heap
+//@   loop 1 invariant[ok]          reqOK(prioritizedAction)
+//@   loop 1 invariant[early-iff]   isER(prioritizedAction) <==> exists(j, 0, idx1, isER(lunarActions[j]))
+//@   loop 1 invariant[first-early] isER(prioritizedAction) ==> exists(j, 0, idx1, prioritizedAction == lunarActions[j] && forall(m, 0, j, !isER(lunarActions[m])))
+//@   loop 1 invariant[noop-iff]    isNoOp(prioritizedAction) <==> forall(j, 0, idx1, isNoOp(lunarActions[j]))
+//@   ensures[first-early-response-wins] (exists(j, 0, len(lunarActions), isER(lunarActions[j]))) ==> exists(j, 0, len(lunarActions), prioritizedAction == lunarActions[j] && isER(lunarActions[j]) && forall(m, 0, j, !isER(lunarActions[m])))
+//@   ensures[no-early-response-invented] isER(prioritizedAction) ==> exists(j, 0, len(lunarActions), prioritizedAction == lunarActions[j])
+//@   ensures[noop-only-if-all-noop] isNoOp(prioritizedAction) <==> forall(j, 0, len(lunarActions), isNoOp(lunarActions[j]))
+
+//@ ghost func isModResp(a actions.RespLunarAction) bool = typeis(a, *actions.ModifyResponseAction)
+//@ ghost func isRetry(a actions.RespLunarAction) bool = typeis(a, *actions.RetryRequestAction)
+//@ ghost func isRespNoOp(a actions.RespLunarAction) bool = typeis(a, *actions.NoOpAction)
+
+//@ func getSPOERespActions
+//@   prop C07
+//@   dispatch RespLunarAction.RespPrioritize => *NoOpAction, *ModifyResponseAction, *RetryRequestAction
+//@   requires forall(j, 0, len(lunarActions), respOK(lunarActions[j]))
+//@   allocates OnResponse, NoOpAction, map, ModifyResponseAction, RetryRequestAction
+//@   modifies heap
+//@   loop 1 invariant[ok]       respOK(prioritizedAction)
+//@   loop 1 invariant[noop-iff] isRespNoOp(prioritizedAction) <==> forall(j, 0, idx1, isRespNoOp(lunarActions[j]))
+//@   ensures[noop-never-displaces] isRespNoOp(prioritizedAction) <==> forall(j, 0, len(lunarActions), isRespNoOp(lunarActions[j]))
